@@ -249,3 +249,28 @@ package congestion
 //@   step c.OnPacketAcked(a, ab, pf, t)
 //@   show [ack-no-shrink] c.congestionWindow >= w0
 //@   show [bounds] 2*c.maxDatagramSize <= c.congestionWindow && c.congestionWindow <= 10000*c.maxDatagramSize + c.maxDatagramSize
+
+// ---------------- construction (C20: the window invariant holds from the first moment; the mode is the one asked for) ----------------
+//@ func NewCubic
+//@   trusted CUBIC curve state (float32/Cbrt) is outside the claim
+//@   ensures result != nil
+//@   fresh
+//@   modifies nothing
+//@ func newPacer
+//@   trusted stores the bandwidth callback (a method value) and fills the bucket to one burst; pacing itself is under contract (Budget, SentPacket, TimeUntilSend)
+//@   ensures result != nil
+//@   fresh
+//@   modifies nothing
+//@ func newCubicSender
+//@   props C20
+//@   requires 1200 <= initialMaxDatagramSize && initialMaxDatagramSize <= 1452 && initialCongestionWindow == 32 * initialMaxDatagramSize && initialMaxCongestionWindow == 10000 * initialMaxDatagramSize
+//@   ensures [mode-as-requested] result != nil && result.reno == reno
+//@   ensures [starts-in-slow-start-at-the-initial-window] result.congestionWindow == initialCongestionWindow && result.maxDatagramSize == initialMaxDatagramSize && result.initialMaxCongestionWindow == initialMaxCongestionWindow
+//@   ensures [window-invariant-from-the-start] 2 * result.maxDatagramSize <= result.congestionWindow && result.congestionWindow <= result.initialMaxCongestionWindow
+//@   modifies nothing
+//@ func NewCubicSender
+//@   props C20
+//@   requires 1200 <= initialMaxDatagramSize && initialMaxDatagramSize <= 1452
+//@   ensures [mode-as-requested] result != nil && result.reno == reno
+//@   ensures [window-invariant-from-the-start] 2 * result.maxDatagramSize <= result.congestionWindow && result.congestionWindow <= result.initialMaxCongestionWindow && result.maxDatagramSize == initialMaxDatagramSize
+//@   modifies nothing
